@@ -69,6 +69,7 @@ func annotationKeyOf(p *Prog, v ssa.Value, depth int) []string {
 }
 
 func runC19(c *Ctx) {
+	borrow(c, "O8", "C02", "O14", "", "the portion the scheduler derives from a gpu-memory annotation is what it accounts, writes into the BindRequest and the binder turns into GPU_PORTION: rounded down it is less than the annotation the admission webhook accepted")
 	runC19Received(c)
 	runC19EnvUpsert(c)
 	runC19ContainerRef(c)
